@@ -53,7 +53,7 @@ distances under that one set) are judged there, "M" = the run is also compared w
   NOT covered: `dist --dump-params` (hidden debugging option, writes no result); `gambit.query.query()` and
   `jaccarddist_matrix()` called directly with foreign signatures (no exit status: outside the statement -- they do not
   look at the parameters at all, the guard lives in the command line only); --qdir/--rdir/--ldir (C08's subject).
-  FOUND: see known_defect() -- a signature file whose kmerspec_k attribute is an unsigned 8-bit integer."""
+  FOUND (and repaired in /repo): see known_defect() -- a signature file whose kmerspec_k attribute is an unsigned 8-bit integer."""
 import itertools
 import os
 import re
@@ -93,10 +93,11 @@ ASSUMPTIONS = ['signature files and databases given on the command line are load
                'a property violation',
                'signature files without signatures (variant n0) and pre-computed signatures with k <= 4 (8-bit indices, refused by the '
                'distance kernel with a ValueError) are outside the model: predicate and declarative spec only',
-               'GENUINE DEFECT recorded and skipped (exactly this input class, see known_defect()): a signature file whose '
-               'kmerspec_k attribute is an unsigned 8-bit integer, parameters inferred, other side computed from genome files: '
-               '`gambit dist --qs FILE -r genome.fasta` exits 0 with wrong distances (find_kmers: -uint8(k) wraps to 250); '
-               'repair repo_fixes/C14-uint8-k.diff, replay repo_fixes/C14-uint8-k.replay.json',
+               'GENUINE DEFECT of the code as found, repaired by a fix: commit (repo_fixes/C14-uint8-k.diff; see known_defect()): '
+               'a signature file whose kmerspec_k attribute is an unsigned 8-bit integer, parameters inferred, other side '
+               'computed from genome files: `gambit dist --qs FILE -r genome.fasta` exited 0 with wrong distances '
+               '(find_kmers: -uint8(k) wraps to 250); replay repo_fixes/C14-uint8-k.replay.json, corpus case; the input '
+               'class is generated and judged like every other',
                'a pre-existing output file that is emptied but holds no result after an error counts as "no result written" '
                'for query (its -o file is opened lazily by click); for dist any file left behind counts as written']
 CORRESPONDENCES = ['kspec', 'dist', 'query', 'tree', 'create', 'api']
@@ -1293,11 +1294,12 @@ def gen_query_forms(ctx, n):
 
 
 def known_defect(c):
-	"""GENUINE DEFECT found by this audit, recorded and skipped (the exact input class only): a signature file whose
+	"""GENUINE DEFECT found by this audit (repaired in /repo by a fix: commit; the input class is generated and judged
+	like every other, this predicate only counts it): a signature file whose
 	kmerspec_k attribute is an unsigned 8-bit integer, whose parameters are inferred (no -k/--prefix) and used to compute
-	the other side from genome files.  KmerSpec keeps the NumPy scalar, find_kmers' `-kmerspec.k` wraps to 250 and the
-	forward strand of every contig is only searched in its first 250 bytes: `gambit dist --qs FILE -r genome.fasta` exits 0
-	with distances that are not those of the file's parameters.  Suggested repair: repo_fixes/C14-uint8-k.diff
+	the other side from genome files.  KmerSpec kept the NumPy scalar, find_kmers' `-kmerspec.k` wrapped to 250 and the
+	forward strand of every contig was only searched in its first 250 bytes: `gambit dist --qs FILE -r genome.fasta` exited 0
+	with distances that were not those of the file's parameters.  Repair: repo_fixes/C14-uint8-k.diff
 	(KmerSpec.__init__: k = int(k)).  Replay: repo_fixes/C14-uint8-k.replay.json."""
 	if c.get('k') is not None or c.get('prefix') is not None:
 		return False
@@ -1325,9 +1327,8 @@ def gen_dist_variants(ctx, n):
 			c['dbv'] = rng.choice(DB_VARIANTS)
 		if rng.random() < 0.3:
 			c['k'], c['prefix'] = PARAMS[rng.choice([a, b])]
-		if known_defect(c) and not os.environ.get('C14_INCLUDE_KNOWN_DEFECT'):
-			ctx.count('skipped:known-defect-uint8-k-attribute')
-			continue
+		if known_defect(c):
+			ctx.count('former-defect:uint8-k-attribute (judged like every other case)')
 		made += 1
 		yield c
 
